@@ -58,6 +58,7 @@ class E1Check(runner.Check):
     bounds_quick = dict(N=3, M=2, K=6, enc_k=1, state_cap=400, parts=1)
     bounds_thorough = dict(N=4, M=3, K=8, enc_k=2, state_cap=4000, parts=4)
     exotic = True
+    l3_table = None           # name of the tier-L3 operation table in mc/l3.py (the Python layer's half of the property)
     labeler = staticmethod(values.default_label)
     _last = None
 
@@ -99,6 +100,10 @@ class E1Check(runner.Check):
                 out.append((tier, ti, part))
         for g in range(len(self.extra_states(tier))):
             out.append((tier, "extra", g))
+        if self.l3_table:
+            import l3
+            for g in range(len(l3.TABLES[self.l3_table][1])):
+                out.append((tier, "l3", g))
         return out
 
     def arrays(self, T, b):
@@ -116,6 +121,10 @@ class E1Check(runner.Check):
         if ti == "extra":
             for T, tvs, enclist in self.extra_states(tier)[part]:
                 self._explore(st, tier, T, tvs, enclist, True)
+            pool.unmark()
+            return st.pack()
+        if ti == "l3":
+            self._run_l3(st, tier, part)
             pool.unmark()
             return st.pack()
         T = self.types(tier)[ti]
@@ -203,6 +212,121 @@ class E1Check(runner.Check):
                     st.sample({"type": values.tstr(T), "value": repr(values.strip(tvs))[:200], "encoding": names,
                                "layout": layouts.short(d)[:300], "op": [ops[0][0], list(ops[0][1])] if ops else None})
 
+    # ---- tier L3: the same property through the repository's Python layer
+    def l3_matches(self, exp, got, label):
+        return refops.matches(exp, got)
+
+    def l3_signature(self, T, tvs, label):
+        return {}
+
+    def _run_l3(self, st, tier, g):
+        import l3
+        ak = l3.ak()
+        table, types = l3.TABLES[self.l3_table]
+        T = types[g]
+        N, M, cap = (2, 2, 10) if tier == "quick" else (3, 2, 60)
+        vals = list(values.arrays(T, N, M, 6, self.labeler))
+        if len(vals) > cap:
+            vals = vals[:cap // 2] + vals[-(cap - cap // 2):]
+        for tvs in vals:
+            ops = table(T, tvs, tier)
+            encl = list(encs.encodings(T, tvs, 1, False))
+            chosen = [encl[0]] + ([encl[1 + (len(tvs) % (len(encl) - 1))]] if len(encl) > 1 else [])
+            arrays = []
+            for d, names in chosen:
+                arrays.append((ak.Array(layouts.build(d)), d, names or ["canonical"]))
+            if len(tvs) >= 1:
+                whole = arrays[0][0]
+                cut = len(tvs) // 2
+                try:
+                    arrays.append((ak.partitioned([whole[:cut], whole[cut:]]), chosen[0][0], ["partitioned@%d" % cut]))
+                except Exception:  # noqa: B902
+                    pass
+            exp = []
+            for label, run, expect in ops:
+                try:
+                    exp.append(("value", expect(T, tvs)))
+                except refops.RefError as err:
+                    exp.append(("error", str(err)))
+                except refops.Skip as err:
+                    exp.append(("skip", str(err)))
+            for arr, d, names in arrays:
+                st.states += 1
+                for (label, run, expect), (ekind, evalue) in zip(ops, exp):
+                    self._no += 1
+                    pool.mark(self._no)
+                    st.transitions += 1
+                    st.evaluations += 1
+                    opn = label.split("(")[0]
+                    if ekind == "skip":
+                        st.outcome("l3:%s:undefined-in-model" % opn)
+                        continue
+                    try:
+                        got = ("value", run(arr))
+                    except refops.Skip:
+                        continue
+                    except Exception as err:  # noqa: B902
+                        got = ("error", "%s: %s" % (type(err).__name__, str(err)[:160]))
+                    case = {"mode": "l3", "table": self.l3_table, "gtype": values.type_to_json(T), "tvs": values.tv_to_json(tvs),
+                            "layout": layouts.to_json(d), "wrap": names, "label": label}
+                    sig = {"op": "l3:" + opn, "wrap": names[0].split("@")[0].split("-")[0], "l3": True,
+                           "axis_none": "axis=None" in label, "no_leaves": len(l3.leaves(values.strip(tvs))) == 0}
+                    sig.update(self.l3_signature(T, tvs, label))
+                    if ekind == "value" and got[0] == "value":
+                        if self.l3_matches(evalue, got[1], label):
+                            st.outcome("l3:%s:ok" % opn)
+                            if not trivial(got[1]):
+                                st.nontrivial += 1
+                        else:
+                            st.violation("value", "ak.%s on %r [%s; %s]: expected %r, got %r" % (
+                                label, values.strip(tvs), values.tstr(T), names, evalue, got[1]), case, failure="value", **sig)
+                    elif ekind == "error" and got[0] == "error":
+                        st.outcome("l3:%s:error-as-required" % opn)
+                        st.nontrivial += 1
+                    elif ekind == "error":
+                        st.violation("missing-error", "ak.%s on %r [%s; %s]: must raise (%s), returned %r" % (
+                            label, values.strip(tvs), values.tstr(T), names, evalue, got[1]), case, failure="missing-error", **sig)
+                    else:
+                        st.violation("unexpected-error", "ak.%s on %r [%s; %s]: expected %r, raised %s" % (
+                            label, values.strip(tvs), values.tstr(T), names, evalue, got[1]), case, failure="unexpected-error", **sig)
+
+    def _replay_l3(self, case):
+        import l3
+        ak = l3.ak()
+        T = values.type_from_json(case["gtype"])
+        tvs = values.tv_from_json(case["tvs"])
+        table, types = l3.TABLES[case["table"]]
+        d = layouts.from_json(case["layout"])
+        arr = ak.Array(layouts.build(d))
+        wrap = case["wrap"][0]
+        if wrap.startswith("partitioned"):
+            cut = int(wrap.split("@")[1])
+            arr = ak.partitioned([arr[:cut], arr[cut:]])
+        text = ["array: %r (%s) as %s" % (values.strip(tvs), values.tstr(T), case["wrap"]), "operation: ak.%s" % case["label"]]
+        for tier in ("thorough", "quick"):
+            for label, run, expect in table(T, tvs, tier):
+                if label != case["label"]:
+                    continue
+                try:
+                    exp = ("value", expect(T, tvs))
+                except refops.RefError as err:
+                    exp = ("error", str(err))
+                except refops.Skip as err:
+                    exp = ("skip", str(err))
+                try:
+                    got = ("value", run(arr))
+                except Exception as err:  # noqa: B902
+                    got = ("error", "%s: %s" % (type(err).__name__, str(err)[:200]))
+                text += ["expected: %s %r" % exp, "observed: %s %r" % got]
+                if exp[0] == "skip":
+                    bad = False
+                elif exp[0] == "value":
+                    bad = got[0] != "value" or not self.l3_matches(exp[1], got[1], label)
+                else:
+                    bad = got[0] != "error"
+                return bad, "\n".join(text)
+        return False, "\n".join(text + ["operation not in the table any more"])
+
     def _viol(self, st, failure, T, tvs, d, names, opname, args, text):
         case = {"layout": layouts.to_json(d), "type": values.tstr(T), "op": opname, "args": _jsonable(args),
                 "value": repr(values.strip(tvs)), "gtype": values.type_to_json(T), "tvs": values.tv_to_json(tvs)}
@@ -215,6 +339,8 @@ class E1Check(runner.Check):
                      case, **sig)
 
     def replay(self, case):
+        if case.get("mode") == "l3":
+            return self._replay_l3(case)
         d = layouts.from_json(case["layout"])
         lay = layouts.build(d)
         T = values.type_from_json(case["gtype"])
